@@ -53,6 +53,15 @@ def check_returned(q, qtype, axis, gs, shape):
         g = g.val if hasattr(g, "val") else g
         if g != gs:
             probs.append(f"group size {g} != requested {gs}")
+        # one scale / zero-point per (kept-axis index, group): the grouping must not straddle axis indices
+        if len(shape) > 1 and axis in (0, -1):
+            per = 1
+            for d_, n_ in enumerate(shape):
+                if d_ != axis % len(shape):
+                    per *= n_
+            want = shape[axis] * (per // gs if gs else 1)
+            if q._scale.numel() != want or q._zeropoint.numel() != want:
+                probs.append(f"{q._scale.numel()} scales for {want} (axis index, group) pairs")
     elif gs is not None:
         probs.append(f"group size {gs} was requested for an 8-bit qtype and silently ignored")
     probs += qops.metadata_problems(q)
@@ -87,6 +96,9 @@ def call_entry(entry, qtype, optimizer, shape, axis, gs, scale_kind="right"):
                     scale = torch.full(s, 0.05)
                 elif scale_kind == "wrong-rank":
                     scale = torch.full((shape[0],), 0.05)
+                elif scale_kind == "one-by-one-none":
+                    scale = torch.full((1,) * (len(shape) + 1), 0.05)
+                    axis = None
                 else:  # two axes at once
                     scale = torch.full(tuple(shape), 0.05)
                 q = SymmetricQuantizer.apply(t, q_t, axis, scale)
@@ -102,7 +114,9 @@ def call_entry(entry, qtype, optimizer, shape, axis, gs, scale_kind="right"):
                     sc, zp = MaxOptimizer()(t, q_t.bits, 0, None)
                 q = AffineQuantizer.apply(t, q_t, axis, gs, sc, zp)
         else:
-            scale = torch.tensor(0.05) if scale_kind == "scalar" else torch.full((1,), 0.05) if scale_kind == "one-element" else torch.full((shape[-1],), 0.05)
+            scale = {"scalar": torch.tensor(0.05), "one-element": torch.full((1,), 0.05), "one-by-one": torch.full((1, 1), 0.05), "one-by-one-by-one": torch.full((1, 1, 1), 0.05)}.get(scale_kind)
+            if scale is None:
+                scale = torch.full((shape[-1],), 0.05)
             q = quantize_activation(t, q_t, scale)
             axv, gsv = None, None
     except ValueError as e:
@@ -178,9 +192,9 @@ def run_case(case, res):
             numel = int(torch.tensor(shape).prod())
             variants = [("right",)]
             if entry == "quantizer" and wq.qt(case["qtype"]).bits == 8:
-                variants = [("scalar",), ("right",), ("wrong-rank",), ("all-axes",)]
+                variants = [("scalar",), ("right",), ("wrong-rank",), ("all-axes",), ("one-by-one-none",)]
             if entry == "quantize_activation":
-                variants = [("scalar",), ("one-element",), ("vector",)]
+                variants = [("scalar",), ("one-element",), ("one-by-one",), ("one-by-one-by-one",), ("vector",)]
             for (scale_kind,) in variants:
                 no_gs = entry == "quantize_activation" or (entry == "quantizer" and wq.qt(case["qtype"]).bits == 8)  # these take no group size
                 for gs_mode in (("none",) if no_gs else ("none", "sym")):
